@@ -529,3 +529,14 @@ for _id, _fl in {
     "C14": {"shown_ranges_beyond_32_bits": 20, "shown_slices_of_floats_or_strings": 60, "shown_sequences_of_floats_or_strings": 300},
 }.items():
     PROPS[_id].setdefault("floors", {}).setdefault("quick", {}).update(_fl)
+
+# floors added with the round-17 seeded changes
+for _id, _fl in {
+    "C01": {"trees_with_values_wider_than_their_keys": 200},
+    "C08": {"type_level_macro_calls_of_an_empty_member": 300},
+    "C12": {"tuples_offered_far_out_of_range_lengths": 20},
+    "C14": {"shown_trees_keyed_by_plain_structs": 60, "shown_tables_keyed_by_plain_structs": 60},
+    "C17": {"registries_grown_beyond_65536_slots": 1},
+    "C20": {"opens_in_a_binary_update_mode_spelled_with_the_plus_last": 300},
+}.items():
+    PROPS[_id].setdefault("floors", {}).setdefault("quick", {}).update(_fl)
